@@ -894,27 +894,8 @@ func ruleTrimOrder(c *Ctx) {
 		}
 		rr := rd.Run(Query{Target: back, Exempt: notLast})
 		c.Floor(r122, rd.Name, "readBackward sites", rr.TargetSites, 1)
-		// NOTE: path-insensitive w.r.t. the later `direction == FIRST` test; accept hits only if the refusal is missing
-		refusal := false
-		rd.walk(func(m ast.Node) bool {
-			is, ok := m.(*ast.IfStmt)
-			if !ok {
-				return true
-			}
-			if b, ok := isCompare(is.Cond, token.EQL); ok && (objKey(rd.Info, b.Y) == "utils/io.LAST" || objKey(rd.Info, b.X) == "utils/io.LAST") {
-				for _, st := range is.Body.List {
-					if r, isR := st.(*ast.ReturnStmt); isR && rd.lastResultCertainlyNonNil(r) {
-
-						if strings.HasPrefix(rd.guardDesc(is), "else[") || strings.HasPrefix(rd.guardDesc(is), "if[") {
-							refusal = true
-						}
-					}
-				}
-			}
-			return true
-		})
-
-		c.Check(refusal, r122, rd.Name, "unlimited-reverse-scan-refused", c.P.Pos(rd.Body.Pos()), "a LAST-direction read without a row limit returns an error before any file is scanned")
-		_ = rr
+		c.reportHits(r122, rd, "unlimited-reverse-scan-refused", rr,
+			"a backward read is reachable only with a row limit (Limit.Number != MaxInt32) or after the direction was found not to be LAST: an unlimited LAST read returns an error before any file is scanned",
+			"a backward read is reachable on a path where neither a row limit nor a direction other than LAST was established: an unlimited reverse scan is not refused")
 	}
 }
